@@ -283,6 +283,45 @@ def _worker_init():
     except Exception:
         pass
     setup_lentil()
+    reset_library_state()      # first call takes the import-time snapshot
+
+
+_MODULE_SNAPSHOT = {}
+
+
+def reset_library_state():
+    """Return every lentil module to its import-time state without re-importing it: module-level mutable containers
+    (dict / list / set) are restored to their first-seen content and every functools cache is cleared.  This makes hidden
+    process-global state (memo tables, LRU caches) a function of the explored history instead of the worker's past."""
+    import copy as _copy
+    for mname, mod in list(sys.modules.items()):
+        if mod is None or not (mname == 'lentil' or mname.startswith('lentil.')):
+            continue
+        for name, val in list(vars(mod).items()):
+            if name.startswith('__'):
+                continue
+            if callable(getattr(val, 'cache_clear', None)):
+                val.cache_clear()
+            elif isinstance(val, (dict, list, set)):
+                key = (mname, name)
+                if key not in _MODULE_SNAPSHOT:
+                    try:
+                        _MODULE_SNAPSHOT[key] = _copy.deepcopy(val)
+                    except Exception:
+                        _MODULE_SNAPSHOT[key] = None
+                    continue
+                snap = _MODULE_SNAPSHOT[key]
+                if snap is None:
+                    continue
+                try:
+                    if val != snap:
+                        val.clear()
+                        if isinstance(val, list):
+                            val.extend(_copy.deepcopy(snap))
+                        else:
+                            val.update(_copy.deepcopy(snap))
+                except Exception:
+                    pass
 
 
 class CaseTimeout(Exception):
